@@ -2,8 +2,10 @@
   C16 — week-year rules and weekday navigation.
   Theorems for regular rules (every minimum-days-in-first-week 1…7, every first day of week) over an arbitrary
   calendar year table with `start (y+1) = start y + len y` and `len y ≥ 7` (what C01 gives for every calendar).
-  Irregular (BCL-style) rules and the comparison with the standard library's isocalendar are decided by the
-  correspondence and the direct oracle (harness/c16.py).
+  Irregular (BCL-style) rules: C16Irregular.lean (every minimum-days value, every first day of week); the same
+  statements on dates through the getters, the inverse round trip for regular rules, and the refutation of the
+  regular statements for irregular rules: C16Dates.lean.  CPython's isocalendar is transcribed in the model
+  (`pyIsocalendar`) and tied to the real one by the correspondence op `wy.pyiso` (harness/c16.py).
 -/
 import PyodaModel.WeekYear
 import PyodaProofs.Basic
